@@ -1,4 +1,3 @@
 #include "mon.h"
 int mon_threads(const mon_args_t *a) { (void)a; hx_die("not built"); return 2; }
 int mon_io(const mon_args_t *a) { (void)a; hx_die("not built"); return 2; }
-int mon_allocfail(const mon_args_t *a) { (void)a; hx_die("not built"); return 2; }
